@@ -203,13 +203,22 @@ Proof.
 Qed.
 
 (** * The lexer state invariant *)
+(** identifiers with namespace contain the dot the parsers split them at *)
+Definition nsb (ty : Z) : bool := Z.eqb ty T_lcIdentNS || Z.eqb ty T_ucIdentNS.
+Definition ns_ok (ty : Z) (v : list N) : Prop := nsb ty = false \/ In 46 v.
+Definition tok_ns_ok (t : token) : Prop := ns_ok (t_type t) (t_val t).
+
+Lemma nsb_chr c : nsb (ty_chr c) = false.
+Proof. unfold nsb, ty_chr. apply orb_false_iff. split; apply Z.eqb_neq; vm_compute; destruct c; discriminate. Qed.
+
 Definition consumed (st : lstate) : list N := vals (rev (l_rtoks st)).
 
 Record good (s : list N) (st : lstate) : Prop := mkGood {
   g_recomb : consumed st ++ l_str st = s;
   g_pos : l_pos st = pos_spec (consumed st);
   g_toks : toks_pos_ok [] (rev (l_rtoks st));
-  g_nonempty : Forall (fun t => t_val t <> []) (l_rtoks st) }.
+  g_nonempty : Forall (fun t => t_val t <> []) (l_rtoks st);
+  g_ns : Forall tok_ns_ok (l_rtoks st) }.
 
 Lemma good_new s : good s (newLexer s).
 Proof. split; simpl; auto. Qed.
@@ -227,11 +236,11 @@ Qed.
 
 (** one [advance] over a non-empty value without line feed keeps the invariant *)
 Lemma advance_good s st v r n ty :
-  good s st -> l_str st = v ++ r -> n = length v -> v <> [] -> no10 v ->
+  good s st -> l_str st = v ++ r -> n = length v -> v <> [] -> no10 v -> ns_ok ty v ->
   exists tok st', advance n ty st = Some (tok, st') /\ good s st' /\ l_str st' = r /\
                   l_rtoks st' = tok :: l_rtoks st /\ t_pos tok = l_pos st /\ t_val tok = v /\ t_type tok = ty.
 Proof.
-  intros G Hs -> Hne H10. rewrite (advance_app _ _ _ _ Hs).
+  intros G Hs -> Hne H10 Hns. rewrite (advance_app _ _ _ _ Hs).
   eexists. eexists. split; [reflexivity|]. split; [|cbn; auto 8].
   split; cbn [l_str l_rtoks l_pos t_pos t_val].
   - unfold consumed. cbn [l_rtoks rev]. rewrite vals_snoc. cbn [t_val]. rewrite <- app_assoc, <- Hs. apply G.
@@ -239,6 +248,7 @@ Proof.
     rewrite (pos_spec_app_no10 _ _ H10). fold (consumed st). rewrite <- (g_pos _ _ G). reflexivity.
   - cbn [rev]. apply toks_pos_ok_snoc. split; [apply G|]. cbn [t_pos app]. apply G.
   - constructor; [exact Hne|apply G].
+  - constructor; [exact Hns|apply G].
 Qed.
 
 (** an [advance] over a line terminator followed by the line bookkeeping of nextToken *)
@@ -255,6 +265,7 @@ Proof.
     rewrite (pos_spec_newline _ _ H10). fold (consumed st). rewrite <- (g_pos _ _ G). reflexivity.
   - cbn [rev]. apply toks_pos_ok_snoc. split; [apply G|]. cbn [t_pos app]. apply G.
   - constructor; [destruct w; discriminate|apply G].
+  - constructor; [left; reflexivity|apply G].
 Qed.
 
 (** * One call of nextToken *)
@@ -271,9 +282,9 @@ Lemma len_lt_app (v r : list N) : v <> [] -> (length r < length (v ++ r))%nat.
 Proof. destruct v; [contradiction|]. intros _. rewrite app_length. simpl. lia. Qed.
 
 Lemma adv_ok_good s st v r n ty :
-  good s st -> l_str st = v ++ r -> n = length v -> v <> [] -> no10 v -> step_ok s st (adv_ok n ty st).
+  good s st -> l_str st = v ++ r -> n = length v -> v <> [] -> no10 v -> ns_ok ty v -> step_ok s st (adv_ok n ty st).
 Proof.
-  intros G Hs Hn Hne H10. destruct (advance_good s st v r n ty G Hs Hn Hne H10) as (tok & st' & E & G' & Hr & _).
+  intros G Hs Hn Hne H10 Hns. destruct (advance_good s st v r n ty G Hs Hn Hne H10 Hns) as (tok & st' & E & G' & Hr & _).
   unfold adv_ok. rewrite E. exists st', None. split; [reflexivity|]. split; [exact G'|]. split; [|exact I].
   rewrite Hr, Hs. apply len_lt_app. exact Hne.
 Qed.
@@ -282,7 +293,7 @@ Lemma adv_err_good s st v r n k :
   good s st -> l_str st = v ++ r -> n = length v -> v <> [] -> no10 v -> step_ok s st (adv_err n k st).
 Proof.
   intros G Hs Hn Hne H10.
-  destruct (advance_good s st v r n T_undefined G Hs Hn Hne H10) as (tok & st' & E & G' & Hr & Ht & _).
+  destruct (advance_good s st v r n T_undefined G Hs Hn Hne H10 (or_introl eq_refl)) as (tok & st' & E & G' & Hr & Ht & _).
   unfold adv_err. rewrite E. eexists st', (Some _). split; [reflexivity|]. split; [exact G'|]. split.
   - rewrite Hr, Hs. apply len_lt_app. exact Hne.
   - cbn [err_ok e_tok e_outer]. eexists. split; [exact Ht|reflexivity].
@@ -297,7 +308,7 @@ Proof.
 Qed.
 
 (** ** the helper lexers *)
-Ltac leaf_ok V R := eapply (adv_ok_good _ _ V R); [eassumption| | | |].
+Ltac leaf_ok V R := eapply (adv_ok_good _ _ V R); [eassumption| | | | |try first [left; reflexivity|left; apply nsb_chr]].
 Ltac leaf_err V R := eapply (adv_err_good _ _ V R); [eassumption| | | |].
 
 Lemma no10_1 c : c <> 10 -> no10 [c].
@@ -423,8 +434,10 @@ Proof.
   destruct (negb (lowerCase c)).
   - leaf_err ((c :: w') ++ [46] ++ c2 :: w2') r2; auto; discriminate.
   - destruct (lowerCase c2).
-    + leaf_ok ((c :: w') ++ [46] ++ c2 :: w2') r2; auto; discriminate.
-    + leaf_ok ((c :: w') ++ [46] ++ c2 :: w2') r2; auto; discriminate.
+    + leaf_ok ((c :: w') ++ [46] ++ c2 :: w2') r2; auto; try discriminate.
+      right. apply in_or_app. right. left. reflexivity.
+    + leaf_ok ((c :: w') ++ [46] ++ c2 :: w2') r2; auto; try discriminate.
+      right. apply in_or_app. right. left. reflexivity.
 Qed.
 
 (** ** comments: the end-of-line search and the UTF-8 scan *)
@@ -572,6 +585,7 @@ Proof.
       * rewrite firstn_length_le; lia.
       * destruct i; [lia|]. discriminate.
       * apply no10_app_l in Hno'. exact Hno'.
+      * left; reflexivity.
       * rewrite Ea.
         assert (S1 : step_ok s st1 (adv_err 1 E_utf8 st1)).
         { leaf_err [nth i (47 :: t) 0] (skipn (S i) (47 :: t)); [exact Hr1|reflexivity|discriminate|].
@@ -678,6 +692,7 @@ Record lex_ok (s : list N) (r : lexres) : Prop := mkLexOk {
   lo_recomb : recombineTokens r = s;
   lo_pos : toks_pos_ok [] (r_all r);
   lo_prefix : exists suffix, r_all r = r_toks r ++ suffix;
+  lo_ns : Forall tok_ns_ok (r_all r);
   lo_empty_only_eof : forall a t b, r_all r = a ++ t :: b -> t_val t = [] -> b = [] /\ t_type t = T_eof /\ r_rest r = [];
   lo_noerr : r_err r = None ->
              r_rest r = [] /\ r_toks r = r_all r /\ exists init p, r_all r = init ++ [mkTok T_eof [] p];
@@ -699,6 +714,7 @@ Proof.
     + unfold recombineTokens. cbn [r_all r_rest]. apply G.
     + apply G.
     + exists []. rewrite app_nil_r. reflexivity.
+    + apply Forall_rev. apply G.
     + intros a t b Ea Hv. exfalso.
       assert (In t (l_rtoks st)). { apply in_rev. rewrite Ea. apply in_or_app. right. left. reflexivity. }
       pose proof (g_nonempty _ _ G) as F. rewrite Forall_forall in F. exact (F _ H Hv).
@@ -720,6 +736,7 @@ Proof.
     + unfold recombineTokens. cbn [r_all r_rest]. fold (vals (rev (l_rtoks st) ++ [eoft])). rewrite vals_snoc, !app_nil_r. exact Hrec.
     + apply toks_pos_ok_snoc. split; [apply G|]. cbn [app t_pos eoft]. apply G.
     + destruct Hp as [suf Hsuf]. exists suf. exact Hsuf.
+    + apply Forall_app. split; [apply Forall_rev; apply G|]. constructor; [left; reflexivity|constructor].
     + intros a t b Eab Hv.
       destruct (snoc_split_unique (fun t => t_val t <> []) (rev (l_rtoks st)) eoft) with (a := a) (t := t) (b := b) as [Hb Ht].
       * apply Forall_rev. apply G.
@@ -922,4 +939,23 @@ Proof.
     destruct (lo_empty_only_eof _ _ L a t (b ++ [mkTok T_eof [] p])) as (Hb & _); [rewrite Hi, <- app_assoc; reflexivity|exact Hv|].
     destruct b; discriminate.
   - pose proof (lo_recomb _ _ L) as R. unfold recombineTokens in R. rewrite Hrest, app_nil_r in R. exact R.
+Qed.
+
+(** what the parsers may rely on about the token slice they receive *)
+Record wf_tokens (s : list N) (ts : list token) : Prop := mkWf {
+  wf_pos : toks_pos_ok [] ts;
+  wf_vals : vals ts = s;
+  wf_eof : exists init eoft, ts = init ++ [eoft] /\ t_type eoft = T_eof /\ Forall (fun t => t_val t <> []) init;
+  wf_ns : Forall tok_ns_ok ts }.
+
+Theorem front_tokens_wf o s toks : parseFront o s = Ok (F_tokens toks) -> wf_tokens s toks.
+Proof.
+  intros F. destruct (front_tokens_end_with_eof o s toks F) as (init & p & Hi & Hne & Hv).
+  destruct (parseFront_total o s) as (r & E & L & [(e' & Ee & H)|(En & H)]); rewrite F in H; inversion H as [Ht].
+  destruct (lo_noerr _ _ L En) as (_ & Hall & _). rewrite Ht in Hi, Hv.
+  split.
+  - rewrite Hall. apply L.
+  - exact Hv.
+  - exists init, (mkTok T_eof [] p). auto.
+  - rewrite Hall. apply L.
 Qed.
